@@ -257,9 +257,10 @@ func (vc *VC) entryHeapClosed(key string, comp Term) {
 	vc.heapClosed(key, comp, Term{"now!0", sInt})
 }
 
-// closedEverywhere: development switch for the extension of the closure axioms to
-// havocked components and slice-valued fields (being evaluated; off = entry heap only).
-var closedEverywhere = os.Getenv("LUNGOVC_CLOSED") != ""
+// closedEverywhere: the closure axioms also cover havocked components, slice-valued
+// fields and what a callee stored in its frame targets (LUNGOVC_OPEN=1 switches this
+// off for experiments: entry heap only).
+var closedEverywhere = os.Getenv("LUNGOVC_OPEN") == ""
 
 // heapClosed: the same closure for a component as it is after a call or at a loop
 // cut, relative to the allocation clock of that state (which is past every
